@@ -8,7 +8,9 @@ ENTRY = dict(
         theorems=["c05_generate_is_core", "c05_tables", "c05_coeffs", "c05_chosen", "c05_coeffs_sum", "c05_coeffs_sign",
                   "c05_kappa_nonneg", "c05_exact_total", "c05_exact_coeff", "c05_sorted", "c05_counts_layout", "c05_shape",
                   "c05_build_total", "c05_spec_exp", "c05_observable_bits", "c05_qpd_bits", "c05_projection", "c05_scans", "c05_bases_aligned", "c05_project_bound", "c05_refuse_types",
-                  "c05_refuse_num_samples", "c05_refuse_suffix", "c05_refuse_1q_unseparated", "c05_facts"],
+                  "c05_refuse_num_samples", "c05_refuse_suffix", "c05_refuse_1q_unseparated",
+                  "c05_c04_dictionary", "c05_inf_budget_end_to_end", "c05_coeffs_sum_c04_partial", "c05_groups_from_c11",
+                  "c05_projection_all_partitions", "c05_facts"],
         allowed_axioms=[],
         facts=["value_error_sites", "c05_label_parse", "c05_loops", "c05_group_loop_calls", "c05_f2_guard", "c05_pass_order", "c05_formulas", "c05_dummy_index",
                "c05_register_names"],
@@ -26,7 +28,7 @@ ENTRY = dict(
                    "passes) the C14 splice of the chosen maps with QPD measurement k on clbit nc0+nobs+k followed by the C11 rotation/"
                    "measurement suffix on clbits nc0..nc0+nobs-1, registers old ++ observable ++ qpd, and after the passes the same up to "
                    "deleted resets with no placeholder or marker left; the placeholder labelled _k receives joint[k] in every partition, and when every cut id is an index into `bases` the ids are exactly 0..n-1 and bases[k] is the basis of a placeholder labelled _k (so coefficient and circuit use the same map of the same basis); "
-                   "a totality theorem for the per-circuit step (valid request, no earlier observable register, matching width, measured qubits in range => always the declared circuit); refusal theorems for the type mismatches, num_samples < 1 / NaN / -inf, a missing or non-numeric label suffix and "
+                   "a totality theorem for the per-circuit step (valid request, no earlier observable register, matching width, measured qubits in range => always the declared circuit); COMPOSITION with the oracles' models (Proofs/ExperimentsC.v): every dictionary the C04 model (gen_weights + final_sort) returns, for any budget, has distinct keys, each selecting a coefficient in every basis, and no chosen product is 0; for the infinite budget the coefficient clauses hold end to end with NO hypothesis on the weights (one coefficient per dictionary entry, sum|coeff| = prod kappa, sign = sign of the product); for finite budgets sum|coeff| = prod kappa is proved only under positivity of the returned weights (c05_coeffs_sum_c04_partial: no C04 theorem gives that positivity yet); the groups of the C11 model (collection) are as many as the oracle's commuting groups, each with general observable = most_general_observable of its members and pauli_indices = its ascending non-identity positions; and for ANY number of partitions a circuit of partition l is built from the sample's joint map and its placeholder labelled _k receives joint[k]; refusal theorems for the type mismatches, num_samples < 1 / NaN / -inf, a missing or non-numeric label suffix and "
                    "one-qubit placeholders in an unseparated circuit. The model is run inside Coq on every input the implementation ran "
                    "on (about 310 generated calls per quick run, about 2900 in the thorough tier) and compared circuit by circuit, instruction by instruction, register "
                    "layout exactly, coefficient types exactly, coefficient values exactly where binary64 arithmetic is exact and within "
@@ -49,6 +51,12 @@ ENTRY = dict(
             "to the source. The weight/num_samples types are local copies of those of Model/Weights.v (C04) so that the correspondence cone "
             "does not depend on the regenerated Facts.v; Proofs/ExperimentsP.v section I gives the conversion (of_wdict, of_num) and the "
             "equalities with Weights.qsum/qprod/cart/jointp for the C01 composition",
+            "the composition theorems of section 8 take the C04 model's result r of gen_weights on probs_of(bases) and the C11 model's "
+            "collection as GIVEN equations (they are statements about models glued by function application; the glued function is not "
+            "run as a whole against the implementation — its three parts are, by the C04, C11 and C05 correspondences). Discharged "
+            "thereby: for every budget the former oracle hypotheses 'keys select coefficients' and 'no chosen product is 0'; for the "
+            "infinite budget also 'weights non-negative, total positive'. STILL an oracle hypothesis: positivity of the weights for finite "
+            "budgets (monitored: weights_positive_right_length)",
             "oracle inputs: the weights dictionary of this call in dict order; ObservableCollection(...).groups per partition (or the "
             "exception it raised); QPDBasis objects interned by QPDBasis.__eq__ with maps and coefficients (Fraction of the floats)",
             "exact rational arithmetic; the sign is the sign of the exact product (binary64 underflow of np.prod is not modelled); "
